@@ -31,6 +31,22 @@ class Stream:
         return simp(zint(self.S.length) - zint(self.pos))
 
     def getattr_(self, it, name, node):
+        if name == 'read':
+            # ASSUMED StreamReader.read(n): at least one and at most n of the bytes that are left (none only at the end)
+            def read(it_, n=-1):
+                def thunk():
+                    run = it_.run
+                    k = run.fresh_int('short_read')
+                    left = self.left()
+                    run.assume(z3.And(k >= 0, k <= left, z3.Implies(left > 0, k >= 1)))
+                    if not (isinstance(n, int) and n < 0):
+                        run.assume(k <= zint(n))
+                    run.inputs.append(('short_read', 'int', k))
+                    v = View(self.S.cell, simp(zint(self.S.start) + zint(self.pos)), simp(k), 'bytes', False)
+                    self.pos = simp(zint(self.pos) + k)
+                    return v
+                return CoroVal(thunk, 'read')
+            return _M(read)
         if name != 'readexactly':
             raise Unsupported(f'StreamReader.{name}')
 
